@@ -662,6 +662,16 @@ func (Area) Gen(r *rand.Rand, tier string, emit func(string)) {
 		trl := genMD(r, append(append([]string{}, o.AllowTrailerMD...), o.AllowResponseMD...), respKeys, true, false)
 		emit(fmt.Sprintf("fwd %s %s %s %s %s", showOpts(o), fake.ShowMD(dedupLower(ctxMD)), fake.ShowMD(hdr), fake.ShowMD(trl), genMode(r)))
 	}
+	// ---- proxy entry, binary metadata at full strength (fix D13): every value class x key spelling / renaming
+	for _, kv := range [][2]string{{"x-bin", "x-bin"}, {"x-bin", "X-BIN"}, {"x-sig-bin", "X-Sig-Bin"}, {"grpc-metadata-data-bin", "Grpc-Metadata-Data-Bin"}, {"grpc-metadata-data-bin", "grpc-metadata-data-bin"}} {
+		for _, pfx := range []string{"", "p-", "Grpc-Metadata-"} {
+			for _, vals := range [][]string{{"QUJD"}, {"QUI"}, {"QQ=="}, {"!!"}, {""}, {"\x00"}, {"\xff\xfe"}, {"\x00\xff\x00"}, {"QUJD", "!!", "", "\xff"}, {"not base64", "dGVzdA=="}, {strings.Repeat("\x80", 300)}} {
+				o := opts{AllowRequestMD: []string{kv[1], "x-text"}, PrefixRequestMD: pfx}
+				sent := map[string][]string{kv[0]: vals, "x-text": {"QUJD"}, "y-bin": {"QUJD"}}
+				emit(fmt.Sprintf("e2e proxy %s %s p: m: m: unary", showOpts(o), fake.ShowMD(sent)))
+			}
+		}
+	}
 	// ---- e2e
 	for _, entry := range []string{"http", "ws", "grpcweb", "grpcws", "proxy"} {
 		for i := 0; i < nE2E; i++ {
@@ -679,11 +689,29 @@ func (Area) Gen(r *rand.Rand, tier string, emit func(string)) {
 			}
 			if entry == "proxy" {
 				// only what grpc-go will put on the wire: lower-case valid keys, no reserved grpc- names, printable values unless -bin
-				for k := range sent {
+				// a gRPC client spells keys in lower case (grpc-go rejects anything else); the allow-list keeps its mixed-case spellings
+				for _, k := range sortedKeys(sent) {
 					lk := strings.ToLower(k)
-					if lk != k || (strings.HasPrefix(lk, "grpc-") && lk != "grpc-timeout" && !strings.HasPrefix(lk, "grpc-metadata-")) || lk == "user-agent" || lk == "te" {
-						delete(sent, k)
+					vs := sent[k]
+					delete(sent, k)
+					if (strings.HasPrefix(lk, "grpc-") && lk != "grpc-timeout" && !strings.HasPrefix(lk, "grpc-metadata-")) || lk == "user-agent" || lk == "te" {
+						continue
 					}
+					if _, dup := sent[lk]; dup {
+						continue
+					}
+					if strings.HasSuffix(lk, "-bin") { // truly binary values: grpc-go base64-encodes them on the wire and decodes them for the proxy
+						vs = make([]string, 1+r.Intn(3))
+						for j := range vs {
+							vs[j] = binaryValue(r)
+						}
+					}
+					sent[lk] = vs
+				}
+				if r.Intn(3) == 0 { // make sure binary keys are present and allowed, under several spellings of the allow-list entry
+					k := common.Pick(r, []string{"x-bin", "data-bin", "x-sig-bin", "grpc-metadata-data-bin", "grpc-metadata-x-sig-bin"})
+					sent[k] = []string{binaryValue(r), binaryValue(r)}
+					o.AllowRequestMD = append(o.AllowRequestMD, common.Pick(r, []string{k, strings.ToUpper(k), strings.Title(k)}))
 				}
 			}
 			var pairs [][2]string
@@ -729,6 +757,27 @@ func (Area) Gen(r *rand.Rand, tier string, emit func(string)) {
 			ttrl := genRespMD(r, union(o.AllowTrailerMD, o.AllowResponseMD))
 			emit(fmt.Sprintf("e2e %s %s %s %s %s %s %s", entry, showOpts(o), fake.ShowMD(sent), fake.ShowPairs(pairs), fake.ShowMD(thdr), fake.ShowMD(ttrl), genMode(r)))
 		}
+	}
+}
+
+// binaryValue: bytes a gRPC client may send under a -bin key — text that happens to be valid base64 (padded, unpadded),
+// invalid base64, empty, NUL / 0xff, random bytes, long values.
+func binaryValue(r *rand.Rand) string {
+	switch r.Intn(9) {
+	case 0:
+		return common.Pick(r, []string{"QUJD", "QUI=", "QUI", "QQ==", "QQ", "AAAA", "dGVzdA==", "/+/+", "-_-_"})
+	case 1:
+		return common.Pick(r, []string{"!!", "not base64", "QUJD!", "=", "====", "A", "QUJDR", "QU JD", "QUJD\n"})
+	case 2:
+		return ""
+	case 3:
+		return common.Pick(r, []string{"\x00", "\xff", "\x00\x00\x00", "\xff\xfe\xfd", "\x00\xff", "a\x00b"})
+	case 4:
+		return base64.StdEncoding.EncodeToString(common.RandBytes(r, r.Intn(12), nil))
+	case 5:
+		return string(common.RandBytes(r, 200+r.Intn(200), nil))
+	default:
+		return string(common.RandBytes(r, r.Intn(10), nil))
 	}
 }
 
